@@ -2,7 +2,7 @@
    ExtrOcamlBasic only: Z, positive, nat stay the extracted inductive types. *)
 Require Extraction.
 Require Import ExtrOcamlBasic.
-From CCTZ Require Import Base SrcConstants Cal CivilImpl FixedImpl.
+From CCTZ Require Import Base SrcConstants Cal CivilImpl FixedImpl PosixImpl PosixSpec.
 Extraction Language OCaml.
 Extraction "model.ml"
   Z.add Z.mul Z.sub Z.opp Z.div_eucl Z.compare Z.of_nat Z.to_nat
@@ -11,4 +11,5 @@ Extraction "model.ml"
   align_spec ord_spec of_ord_spec
   construct64 convert64 plus64 minus64 difference64 lt64 eq64
   stream64 get_weekday64 get_yearday64 next_weekday64 prev_weekday64 civil_max64 civil_min64
-  FixedOffsetFromName FixedOffsetToName FixedOffsetToAbbr fixed_name_spec fixed_abbr_spec fixed_from_spec.
+  FixedOffsetFromName FixedOffsetToName FixedOffsetToAbbr fixed_name_spec fixed_abbr_spec fixed_from_spec
+  ParsePosixSpec posix_spec nul_free ptz_determined.
